@@ -876,7 +876,18 @@ fn inputs(prop: &str, seed: u64, w: u32, thorough: bool) -> Inputs {
             i.div = div_inputs(&mut r, n, scale(55, 300));
             i.pow = pow_inputs(&mut r, n, scale(90, 200));
             let (l, x) = log_inputs(&mut r, n, 40);
-            i.log = l.into_iter().step_by(3).collect();
+            // the panic side completely (zero / negative arguments, bases below 2), a third of the rest
+            let lim = gen::small(n, 2);
+            i.log = l
+                .into_iter()
+                .enumerate()
+                .filter(|(k, (x, b))| {
+                    let xz = x.iter().all(|v| *v == 0) || x[n - 1] & 0x80 != 0;
+                    let bb = b[n - 1] & 0x80 != 0 || gen::ucmp(b, &lim) == std::cmp::Ordering::Less;
+                    xz || bb || k % 3 == 0
+                })
+                .map(|(_, p)| p)
+                .collect();
             i.logx = x.into_iter().step_by(5).collect();
             i.shifts = shift_inputs(&mut r, n, if thorough { 200 } else { 50 });
             i.npot = npot_inputs(&mut r, n, if thorough { 300 } else { 30 });
